@@ -139,10 +139,12 @@ def fix_atomic_specifiers(
     """
     # There can be multiple levels of _Atomic in a decl; fix them until a
     # fixed point is reached.
+    fixed_any = False
     while True:
         decl, found = _fix_atomic_specifiers_once(decl)
         if not found:
             break
+        fixed_any = True
 
     # Make sure to add an _Atomic qual on the topmost decl if needed. Also
     # restore the declname on the innermost TypeDecl (it gets placed in the
@@ -153,6 +155,12 @@ def fix_atomic_specifiers(
             typ = typ.type
         except AttributeError:
             return decl
+    if fixed_any and decl.quals != typ.quals:
+        # Qualifiers written next to an _Atomic(T) specifier qualify the atomic
+        # type. When T is a derived type they have moved to that level
+        # ('const _Atomic(int *) p' is 'int * const _Atomic p'); as everywhere
+        # else the declaration's own list mirrors the innermost type.
+        decl.quals = typ.quals[:]
     if "_Atomic" in typ.quals and "_Atomic" not in decl.quals:
         decl.quals.append("_Atomic")
     if typ.declname is None:
